@@ -189,6 +189,8 @@ CONTRACTS.append(Contract(
         ('was-a-directory', c.gold('fs_kind')[c.filename] == K_DIR)]),
             ExcSpec('FileNotFoundError', ensures=lambda c: no_effect(c) + [
                 ('was-absent', c.gold('fs_kind')[c.filename] == K_ABSENT)]),
+            ExcSpec('NotADirectoryError', ensures=lambda c: no_effect(c) + [
+                ('was-absent-below-a-regular-file', c.gold('fs_kind')[c.filename] == K_ABSENT)]),
             ExcSpec('OtherOSError', ensures=no_effect)],
     modifies=NOTHING))
 
@@ -213,6 +215,8 @@ CONTRACTS.append(Contract(
         ('was-a-directory', c.gold('fs_kind')[c.filename] == K_DIR)]),
             ExcSpec('FileNotFoundError', ensures=lambda c: no_effect(c) + [
                 ('was-absent', c.gold('fs_kind')[c.filename] == K_ABSENT)]),
+            ExcSpec('NotADirectoryError', ensures=lambda c: no_effect(c) + [
+                ('was-absent-below-a-regular-file', c.gold('fs_kind')[c.filename] == K_ABSENT)]),
             ExcSpec('OtherOSError', ensures=no_effect)],
     modifies=lambda c: [(HC, c.self)],
     loops={0: LoopSpec(modifies=NOTHING,
@@ -238,6 +242,8 @@ CONTRACTS.append(Contract(
         ('was-absent', c.gold('fs_kind')[c.filename] == K_ABSENT)]),
             ExcSpec('IsADirectoryError', ensures=lambda c: no_effect(c) + [
                 ('was-a-directory', c.gold('fs_kind')[c.filename] == K_DIR)]),
+            ExcSpec('NotADirectoryError', ensures=lambda c: no_effect(c) + [
+                ('was-absent-below-a-regular-file', c.gold('fs_kind')[c.filename] == K_ABSENT)]),
             ExcSpec('OtherOSError', ensures=no_effect),
             ExcSpec('ValueError', when=lambda c: And(
                 c.file_comparison_name != str_lit('METADATA'),
